@@ -9,7 +9,7 @@ cd $W
 DEMO=$(ls $SRC/*demo*.rs | head -1); cp $DEMO tests/
 NAME=$(basename $DEMO .rs)
 echo "demo without change:"; cargo test --offline --test $NAME 2>&1 | grep -E "^test result|error\[" | head -3
-git apply $SRC/patch.diff && echo "patch applies" || { echo "PATCH DOES NOT APPLY"; exit 2; }
+git apply $SRC/patch.diff 2>/dev/null || { git checkout -- . ; git apply -3 $SRC/patch.diff && git reset -q; } ; if git diff --quiet; then echo "PATCH DOES NOT APPLY"; exit 2; else echo "patch applies"; fi
 rm tests/$NAME.rs
 echo "existing suite with change:"; cargo test --workspace --no-fail-fast --offline 2>&1 | grep -E "^test result" | awk '{p+=$4; f+=$6} END {print p" passed, "f" failed"}'
 cp $DEMO tests/
